@@ -183,6 +183,29 @@ pub fn bank_program(seed: u64, p: u64, cart_type: u8, rom_code: u8) -> (Vec<u8>,
       image[off..off + a.bytes.len()].copy_from_slice(&a.bytes);
     }
   }
+  // "hop" routine at 0x5100 in every bank: does bank-specific work, then leaves through a
+  // trampoline in high RAM that maps another bank and jumps to 0x5100 again. The same
+  // address is entered twice in a row under two different banks, and no other ROM
+  // block runs in between (code in RAM is not translated).
+  let hop_mask = (banks.min(32) - 1) as u8;
+  for bank in 0..banks {
+    let mut a = Asm::new(0x5100);
+    for _ in 0..(bank % 3) {
+      a.b(&[0x1c]); // INC E
+    }
+    // (one single block: the hop counter lives in the trampoline, so that the block at
+    // 0x5100 is the last translated block before the next one at 0x5100)
+    a.ld_a((bank as u8).wrapping_mul(13) ^ 0x5a);
+    a.b(&[0x81, 0x4f]); // ADD A,C; LD C,A
+    a.ld_hl(0xc0f1);
+    a.b(&[0x7e]); // LD A,(HL)
+    a.b(&[0xc6, 1 + 2 * (bank % 4) as u8]); // ADD A,odd step
+    a.b(&[0xe6, hop_mask, 0x77]); // AND mask; LD (HL),A
+    a.ld_hl(0x5100);
+    a.jp(0xff80);
+    let off = bank * 0x4000 + 0x1100;
+    image[off..off + a.bytes.len()].copy_from_slice(&a.bytes);
+  }
   // bank-0 tail that falls through 0x3FFF -> 0x4000
   for i in 0x3ff8..0x4000usize {
     image[i] = 0x0c; // INC C
@@ -199,6 +222,11 @@ pub fn bank_program(seed: u64, p: u64, cart_type: u8, rom_code: u8) -> (Vec<u8>,
   a.b(&[0xf3, 0x31, 0xfe, 0xff, 0x0e, 0x00]); // DI; LD SP,FFFE; LD C,0
   a.ld_a(0x01);
   a.ldh_to(0xff);
+  // trampoline in high RAM: LD (0x2100),A ; LD A,(0xC0F0) ; DEC A ; LD (0xC0F0),A ; RET Z ; JP (HL)
+  for (i, b) in [0xeau8, 0x00, 0x21, 0xfa, 0xf0, 0xc0, 0x3d, 0xea, 0xf0, 0xc0, 0xc8, 0xe9].iter().enumerate() {
+    a.ld_a(*b);
+    a.ldh_to(0x80 + i as u8);
+  }
   a.b(&[0xfb]);
   let main = a.here();
   let mbc1 = cart_type <= 0x03;
@@ -209,7 +237,17 @@ pub fn bank_program(seed: u64, p: u64, cart_type: u8, rom_code: u8) -> (Vec<u8>,
     if a.here() > 0x2d00 {
       break;
     }
-    match rng.below(10) {
+    match rng.below(12) {
+      10 | 11 => {
+        // a chain of hops through the high-RAM trampoline: 0x5100 under bank after bank
+        a.ld_a(2 + rng.below(6) as u8);
+        a.ld_a_to(0xc0f0);
+        a.ld_a(rng.u8() & hop_mask);
+        a.ld_a_to(0xc0f1);
+        a.ld_hl(0x5100);
+        a.call(0xff80);
+        desc.push_str(" hops");
+      }
       0..=3 => {
         // select a bank (new, or one visited before) and call into it
         let b = if !recent.is_empty() && rng.chance(1, 2) { *rng.pick(&recent) } else { rng.below(256) as u8 };
